@@ -120,6 +120,9 @@ func URLToClientConfig(s string) (*pb.ClientConfig, error) {
 	if u.Opaque != "" {
 		return nil, fmt.Errorf("URL is opaque")
 	}
+	if len(s) < 8 || s[5:8] != "://" {
+		return nil, fmt.Errorf("URL doesn't start with mieru://")
+	}
 	b, err := base64.StdEncoding.DecodeString(s[8:]) // Remove "mieru://"
 	if err != nil {
 		return nil, fmt.Errorf("base64.StdEncoding.DecodeString() failed: %w", err)
